@@ -47,8 +47,72 @@ def _dims(c: ast.Call, rest_args):
     return (v,) if isinstance(v, int) else tuple(v)
 
 
+def _rule_grid_rotation(check, repo: Repo) -> None:
+    """R10: the detector k-grid handed to every kernel is ROTATED, not sheared.  The helper is executed symbolically, statement by statement (a tuple
+    assignment evaluates its right-hand side before binding; two single assignments do not — the second then reads the already rotated first
+    coordinate), and the returned pair is compared, as rational normal forms in (kx, ky, cos, sin), with a rotation matrix."""
+    from ..domains.algnf import NotArithmetic, Rat, from_ast
+    CPQ = "quantem.diffractive_imaging.complex_probe"
+    cmod, fn = repo.func(f"{CPQ}:_passively_rotate_grid")
+    check.analysed(f"{CPQ}:_passively_rotate_grid")
+    ps = func_params(fn)
+    if len(ps) < 3:
+        raise AnalysisError("_passively_rotate_grid: unexpected signature")
+    kx, ky = ps[0], ps[1]
+    env = {kx: Rat.sym("kx"), ky: Rat.sym("ky")}
+    trig = {}
+
+    def atom(e):
+        cn = call_name(e) if isinstance(e, ast.Call) else None
+        if cn and cn.split(".")[-1] in ("cos", "sin") and len(e.args) == 1:
+            a = unparse(e.args[0]).replace(" ", "")
+            neg = a.startswith("-")
+            trig[cn.split(".")[-1] + ("-" if neg else "+")] = True
+            # cos(−a) = cos(a), sin(−a) = −sin(a): the sign is folded into the symbol's coefficient below
+            return ("c" if cn.endswith("cos") else ("s⁻" if neg else "s"))
+        return None
+    ret = None
+    try:
+        for st in fn.body:
+            if isinstance(st, ast.Expr):
+                continue
+            if isinstance(st, ast.Return):
+                ret = st.value
+                break
+            if not isinstance(st, ast.Assign) or len(st.targets) != 1:
+                raise AnalysisError(f"_passively_rotate_grid: statement `{unparse(st)[:50]}` not understood")
+            t, v = st.targets[0], st.value
+            if isinstance(t, ast.Tuple) and isinstance(v, ast.Tuple) and len(t.elts) == len(v.elts) and all(isinstance(x, ast.Name) for x in t.elts):
+                vals = [from_ast(x, dict(env), atom) for x in v.elts]      # simultaneous: all right-hand sides first
+                for x, val in zip(t.elts, vals):
+                    env[x.id] = val
+            elif isinstance(t, ast.Name):
+                env[t.id] = from_ast(v, dict(env), atom)
+            else:
+                raise AnalysisError(f"_passively_rotate_grid: target `{unparse(t)}` not understood")
+        if not (isinstance(ret, ast.Tuple) and len(ret.elts) == 2):
+            raise AnalysisError("_passively_rotate_grid: expected `return kx', ky'`")
+        ox, oy = (from_ast(x, dict(env), atom) for x in ret.elts)
+    except NotArithmetic as e_:
+        raise AnalysisError(f"_passively_rotate_grid: not arithmetic ({e_})")
+    # s⁻ = sin(−a) = −sin(a)
+    sub = lambda r: r.subs("s⁻", -Rat.sym("s"))
+    ox, oy = sub(ox), sub(oy)
+    X, Y, C, S = Rat.sym("kx"), Rat.sym("ky"), Rat.sym("c"), Rat.sym("s")
+    # orthogonality: |out|² = (c² + s²)·|in|²  — holds for every rotation/reflection, fails for a shear
+    lhs = ox * ox + oy * oy
+    rhs = (C * C + S * S) * (X * X + Y * Y)
+    check.decide(lhs.equals(rhs), "C04-R10", "_passively_rotate_grid: the returned grid is an orthogonal image of the input (|k'|² = (cos² + sin²)·|k|²)", "", cmod.line(fn), definite=True,
+                 fail_detail=f"k' = ({ox!r}, {oy!r}) is not a rotation of (kx, ky): one coordinate is computed from the already updated other one (sequential instead of simultaneous "
+                             f"assignment) or a coefficient is wrong — the detector grid is sheared for every non-zero rotation angle")
+    want_x, want_y = X * C - Y * S, X * S + Y * C          # rotation by −angle written with c = cos(angle), s = sin(angle): passive rotation
+    check.decide(ox.equals(want_x) and oy.equals(want_y), "C04-R10", "_passively_rotate_grid: k' = R(−angle)·k (passive rotation of the coordinates)", f"({ox!r}, {oy!r})", cmod.line(fn),
+                 definite=True, fail_detail=f"k' = ({ox!r}, {oy!r}), expected (kx·c − ky·s, kx·s + ky·c) with c, s of the rotation angle")
+
+
 def run(check, repo: Repo) -> None:
     mod = repo.module(DP)
+    _rule_grid_rotation(check, repo)
     _, rec = repo.func(f"{DP}:DirectPtychography.reconstruct")
     _, ker = repo.func(f"{DP}:DirectPtychography._return_kernel_contributions")
     _, pre = repo.func(f"{DP}:DirectPtychography._preprocess")
@@ -396,3 +460,4 @@ MANIFEST = {
     "technique": "reduction/data-flow inventory of the per-batch region (batch-role targeted form) + table agreement (AST)",
 }
 MANIFEST["text"] += ' Also: optional numeric hyper-parameters are never used as truth values (R6: an explicit 0 is a value); the bright-field crop window is inclusive of the outermost mask pixel, extent = max − min + 2·pad + 1 per axis (R7, algebraic normal form).'
+MANIFEST["text"] += " R10: _passively_rotate_grid is executed symbolically (tuple assignment = simultaneous) and its result compared, as rational normal forms, with a rotation: |k'|² = (cos²+sin²)|k|² and k' = R(−angle)k."
